@@ -5,6 +5,7 @@ import (
 	"verifharness/hx"
 	"verifharness/lazyx"
 	"verifharness/poolx"
+	"verifharness/ppx"
 	"verifharness/reusex"
 	"verifharness/tdcx"
 )
@@ -17,4 +18,5 @@ func main() {
 	lazyx.Drive(w, o, func(s string) string { return "(KLazy " + s + ")" })
 	reusex.Drive(w, o, func(s string) string { return "(KReuse " + s + ")" })
 	poolx.DriveBursts(w, o, func(s string) string { return "(KBurst " + s + ")" })
+	ppx.Drive(w, o, func(s string) string { return "(KPool " + s + ")" })
 }
